@@ -423,8 +423,8 @@ def run(ctx):
         "PCRE is an oracle in the theorems; when running, two pattern shapes with a direct definition",
     ]
     # ------------------------------------------------------------------ programs
-    n_core = 12000 if thorough else 340
-    n_wild = 8000 if thorough else 210
+    n_core = 12000 if thorough else 320
+    n_wild = 8000 if thorough else 190
     # a fixed share of the budget goes to the sharp dimensions (gen/storegen.py focus=True): expression
     # SHAPES (model-compared) and locals / parameters / results of EVERY type (oracle)
     g = G.StoreGen(rng)
